@@ -115,8 +115,10 @@ static void CrashHandler(int sig) {
   _exit(97);
 }
 
-static const char* kLog = ".ninja_log";
-static const char* kDeps = ".ninja_deps";
+// per scenario: "<builddir>/.ninja_log" when the manifest binds builddir
+static string kLog = ".ninja_log";
+static string kDeps = ".ninja_deps";
+static string kLock = ".ninja_lock";
 
 static string TickToken(int64_t ns, const map<int64_t, int>& rank) {
   if (ns == 0) return "0";
@@ -1052,7 +1054,7 @@ struct Explorer {
       x.facts.set("child_died_of_signal", child_sig);
       out->push_back(x);
     }
-    if (after.Get(".ninja_lock")) {
+    if (after.Get(kLock)) {
       Violation x; x.prop = "C07"; x.clause = "lock-file-left";
       x.detail = ".ninja_lock still exists after an interrupted build";
       out->push_back(x);
@@ -1176,7 +1178,7 @@ struct Explorer {
     set<string> expected, removed;
     for (auto& p : scope) { const vfs::File* f = before.Get(p); if (f && !f->dir) expected.insert(p); }
     for (auto& kv : before.files)
-      if (!after.Get(kv.first) && kv.first != ".ninja_lock") removed.insert(kv.first);
+      if (!after.Get(kv.first) && kv.first != kLock) removed.insert(kv.first);
     // never: sources, phony names, anything outside the scope
     for (auto& p : removed) {
       if (expected.count(p)) continue;
@@ -1473,7 +1475,12 @@ struct Explorer {
       out->push_back(x);
       return;
     }
-    if (WorldKey(before) != WorldKey(after)) {
+    // ninja's own bookkeeping directory (`builddir`, where its logs and lock file live) is created by every tool that
+    // loads the logs; it is none of "source, output, depfile, meaning of the logs" and the next build would create it
+    // itself, so its mere (empty) existence is not judged -- only for tools, a dry run does not create it
+    vfs::Disk before_cmp = before;
+    if (!sc.builddir.empty() && !op.dry_run && !before.Get(sc.builddir) && after.Get(sc.builddir)) before_cmp.MkdirP(sc.builddir);
+    if (WorldKey(before_cmp) != WorldKey(after)) {
       Violation x; x.prop = "C19"; x.clause = "world-changed";
       string what;
       for (auto& kv : before.files) {
@@ -2095,7 +2102,7 @@ struct Explorer {
     // 1+2: every finished command's block
     for (size_t ci = 0; ci < r.cmds.size(); ++ci) {
       const RunCmd& c = r.cmds[ci];
-      if (!c.finished) continue;
+      if (!c.finished || c.unreaped) continue;
       if (c.status == 130) return;
       const Variant* v = VariantByHash(sc, c.manifest_hash);
       string desc = c.spec.line;
@@ -2689,8 +2696,14 @@ struct Explorer {
 
   // ---- BFS ------------------------------------------------------------------------------------------
 
+  void SetLogPaths() {
+    string bd = sc.builddir.empty() ? "" : sc.builddir + "/";
+    kLog = bd + ".ninja_log"; kDeps = bd + ".ninja_deps"; kLock = bd + ".ninja_lock";
+  }
+
   void Explore(int depth_override) {
     World w0;
+    SetLogPaths();
     for (auto& d : sc.dirs) w0.disk.MkdirP(d);
     for (auto& kv : sc.files) {
       size_t sl = kv.first.rfind('/');
@@ -2792,6 +2805,7 @@ struct Explorer {
 
   int Replay(const vector<Step>& hist) {
     World w;
+    SetLogPaths();
     for (auto& d : sc.dirs) w.disk.MkdirP(d);
     for (auto& kv : sc.files) {
       size_t sl = kv.first.rfind('/');
@@ -2848,7 +2862,7 @@ struct Explorer {
         stp.set("out", r.out);
         J files = J::Obj();
         for (auto& kv : w.disk.files)
-          if (!kv.second.dir && kv.first != kLog && kv.first != kDeps && kv.first != ".ninja_lock") files.set(kv.first, kv.second.data);
+          if (!kv.second.dir && kv.first != kLog && kv.first != kDeps && kv.first != kLock) files.set(kv.first, kv.second.data);
         stp.set("files", files);
         replay_steps.push(stp);
       } else {
